@@ -70,12 +70,17 @@ def opRestore (req : J) : J :=
          ("ref", refJ (refVerifyBytes false alg payload discs)),
          ("ref_strict", refJ (refVerifyBytes true alg payload discs))]
 
+def nodupB' (l : List String) : Bool :=
+  match l with
+  | [] => true
+  | a :: r => !(r.contains a) && nodupB' r
+
 /-! decidable versions of the theorems' hypotheses, to report whether a generated case meets them -/
 mutual
 def wfB : MJ → Bool
   | .leaf j => decide (J.scalar j)
   | .arr xs => wfE xs
-  | .obj ms sd => wfM ms none && ms.marks.all (fun g => (sd.getD []).contains g)
+  | .obj ms sd => wfM ms none && ms.marks.all (fun g => (sd.getD []).contains g) && nodupB' ms.marks
 def wfE : MElems → Bool
   | .nil => true
   | .clear x r => wfB x && wfE r
